@@ -215,7 +215,8 @@ def case_docs(names, r):
     bareable = [i for i, n in enumerate(names) if not N.needs_quotes(n) and n not in KEYWORDS]
 
     def spell(ns, quoted):
-        return ".".join(N.nix_quote(n) if (i in quoted or N.needs_quotes(n) or n in KEYWORDS) else n for i, n in enumerate(ns))
+        # layout next to the dots is not part of a name
+        return r.choice([".", ".", " . ", ". ", " ."]).join(N.nix_quote(n) if (i in quoted or N.needs_quotes(n) or n in KEYWORDS) else n for i, n in enumerate(ns))
 
     if len(names) >= 2:
         # the path pre-exists as an attrpath binding / nested sets / next to a sibling of the same family, each with
